@@ -62,6 +62,10 @@ def generate(rng, tier):
         name, kw = rng.choice(HELPERS)
         while xkind in ("date", "str", "timedelta", "datetime") and name in ("all", "any", "mean", "median", "quantile", "std", "var", "sum"):
             name, kw = rng.choice(HELPERS)        # value columns that are not numbers: the helpers defined for every type
+        if "big" in tags and name == "count_unique" and xkind in ("date", "datetime", "timedelta"):
+            # (cost limiter, not a judgement: with missing values kept, counting thousands of NaT -- equal hashes, unequal values --
+            #  is quadratic in the library's set-based count; the kept-NaT case stays covered by the small frames)
+            kw = {"drop_na": True}
         case["helper"] = (name, dict(kw))
     if nrow and rng.random() < 0.25:
         col = by[0]
